@@ -250,6 +250,26 @@ def run(ctx, args):
                 cases.append({"words": ["a" * a, "b" * b], "width": w, "indentation": "  ", "depth": 1})
                 if not quick or (a + b) % 2 == 0:
                     cases.append({"words": ["a" * a, "b" * b, "c" * max(1, w - a)], "width": w, "indentation": " ", "depth": 0})
+    # fixed cases for configurations that seeded changes needed: white space on both sides of a text-node boundary,
+    # leading white space with the words taking exactly width-1 / width characters, escaped characters at the limit
+    for w in (6, 7, 8, 12):
+        for ind, depth in (("  ", 1), ("\t", 2), ("", 1), (" ", 0)):
+            cases.append({"words": ["ab", "cd", "ef", "gh"], "width": w, "indentation": ind, "depth": depth,
+                          "pieces": ["ab cd ", " ef gh"]})
+            cases.append({"words": ["ab", "cd", "ef"], "width": w, "indentation": ind, "depth": depth,
+                          "pieces": ["ab ", " ", " cd", " ", "ef"]})
+            for k in (w - 2, w - 1, w):
+                if k >= 3:
+                    cases.append({"words": ["a" * (k - 2), "b"], "width": w, "indentation": ind, "depth": depth, "lead": " "})
+                    cases.append({"words": ["a" * (k - 2), "b"], "width": w, "indentation": ind, "depth": depth, "lead": "\n ",
+                                  "trail": " "})
+    for w in (12, 16, 20, 28):
+        for depth in (0, 1, 2):
+            for extra in (-1, 0, 1, 2):
+                n = max(1, (w - 7 + extra) // 6)
+                words = ["Q&A"] * n           # 3 characters raw, 7 written
+                cases.append({"words": words, "width": w, "indentation": "  ", "depth": depth})
+                cases.append({"words": words + ["a<b"], "width": w, "indentation": " ", "depth": depth})
     for _ in range(700 if quick else 15000):
         cases.append(gen_case(ctx.rng, quick))
     check_cases(ctx, cases)
